@@ -96,6 +96,12 @@ where
     }
 
     fn map_and_write_current_buffer(&mut self) -> io::Result<()> {
+        // Nothing buffered means there is no (remaining) data to map: without this, dropping or
+        // unwrapping the writer would emit the mapping of an empty buffer (i.e. a dangling prefix).
+        if self.buffer.is_empty() {
+            return Ok(());
+        }
+
         match self.inner {
             Some(ref mut inner) => inner.write_all(&(self.mapping_fn)(mem::take(&mut self.buffer))),
             None => Ok(()),
